@@ -118,6 +118,13 @@ struct snapraid_worker {
 	unsigned index;
 
 	/**
+	 * If the worker has completed all the scheduled tasks, and it's waiting for more.
+	 *
+	 * Used only by writers, to support io_flush().
+	 */
+	int idle;
+
+	/**
 	 * Which buffer base index should be used for destination.
 	 */
 	unsigned buffer_skew;
@@ -394,6 +401,15 @@ extern void (*io_write_preset)(struct snapraid_io* io, block_off_t blockcur, int
  * \param writer_error Return the number of errors. Vector of IO_WRITER_ERROR_MAX elements.
  */
 extern void (*io_write_next)(struct snapraid_io* io, block_off_t blockcur, int skip, int* writer_error);
+
+/**
+ * Wait until all the parity writes already scheduled are completed.
+ *
+ * After this call the parity files contain all the blocks written until now,
+ * and they can be flushed to disk before saving a content file declaring them.
+ * The errors of such writes are reported at the next io_write_next() call.
+ */
+extern void (*io_flush)(struct snapraid_io* io);
 
 /**
  * Refresh the number of cached blocks for all data and parity disks.
